@@ -27,7 +27,9 @@ Inductive ev :=
 | EOp
 | ERun (ph : phase) (id : nat) (w : nat)   (* trigger called; ghost w: Deferreds of its firing still unfired *)
 | EWarn                                     (* DeprecationWarning: removing an already-run before-trigger *)
-| EValueError.                              (* removeTrigger raised ValueError to the caller *)
+| EValueError                               (* removeTrigger raised ValueError to the caller *)
+| EAdded (ph : phase) (id : nat)            (* ghost: a registration was appended to the phase list *)
+| ERemoved (ph : phase) (id : nat).         (* ghost: a registration was taken out of the phase list by removeTrigger *)
 
 Record st := mkS {
   before : list nat; during : list nat; after : list nat;
@@ -56,11 +58,11 @@ Definition put (ph : phase) (v : list nat) (s : st) : st :=
 
 Definition mem (x : nat) (l : list nat) : bool := existsb (Nat.eqb x) l.
 
-Definition add_trigger (ph : phase) (id : nat) (s : st) : st := put ph (get ph s ++ [id]) s.
+Definition add_trigger (ph : phase) (id : nat) (s : st) : st := emit (EAdded ph id) (put ph (get ph s ++ [id]) s).
 
 (* removeTrigger_BASE: None = ValueError *)
 Definition remove_base (ph : phase) (id : nat) (s : st) : option st :=
-  if mem id (get ph s) then Some (put ph (remove_first id (get ph s)) s) else None.
+  if mem id (get ph s) then Some (emit (ERemoved ph id) (put ph (remove_first id (get ph s)) s)) else None.
 
 Definition remove_trigger (ph : phase) (id : nat) (s : st) : option st :=
   match ph with
